@@ -28,6 +28,14 @@ fn main() {
         println!("oracle self-test ok");
         return;
     }
+    if args[0] == "--emit-c10-seeds" {
+        let dir = PathBuf::from(args.get(1).map(|s| s.as_str()).unwrap_or("seeds"));
+        std::fs::create_dir_all(&dir).unwrap();
+        for (i, b) in props::c10::seed_inputs().into_iter().enumerate() {
+            std::fs::write(dir.join(format!("seed-{:02}", i)), b).unwrap();
+        }
+        return;
+    }
     if args.len() < 2 {
         usage();
     }
